@@ -31,6 +31,7 @@ SOCKMOD = Opaque("socket_module")
 class SockDomain(Domain):
     async_enabled = False
     subscript_may_raise = True
+    global_keys = ("cfg.tcp",)
 
     def __init__(self, prog, fn, close_may_raise=False, connect_summary=None):
         super().__init__(prog, fn)
@@ -179,6 +180,14 @@ class SockDomain(Domain):
                         s2 = self.close_obj(s2, cur.id)
                     out.append(("exc", Exc(ORD, None, node.lineno), s2.set("self.sock", NONE)))
             return out
+        if name.startswith("self._") and name.count(".") == 1 and name not in ("self._connect",):
+            # a private helper of Client (e.g. the socket-creation half of _connect): interpreted in line, socket
+            # objects created inside it are tracked like those created here
+            m = self.prog.cls("Client").methods.get(name[5:]) if self.prog is not None else None
+            if m is not None:
+                res = self.inline(node, m, args, kwargs, state)
+                if res is not None:
+                    return res
         # calls on self.sock when it is None
         if isinstance(node.func, ast.Attribute) and is_self_attr(node.func.value, "sock") and node.func.attr in ("sendall", "recv"):
             cur = state.get("self.sock", TOP)
